@@ -16,6 +16,7 @@ import (
 	"strconv"
 	"strings"
 	"sync"
+	"sync/atomic"
 	"time"
 
 	"verif.local/vrt"
@@ -403,18 +404,18 @@ func workerLoop(scns []Scenario) {
 		var st *stats
 		if scn.Sequential {
 			old := runtime.GOMAXPROCS(runtime.NumCPU())
-			before := vrt.ShimOps
+			before := atomic.LoadInt64(&vrt.ShimOps)
 			_, st = runSeq(scn, false)
-			st.ShimOps = vrt.ShimOps - before
+			st.ShimOps = atomic.LoadInt64(&vrt.ShimOps) - before
 			runtime.GOMAXPROCS(old)
 		} else {
 			if !warmed[rq.Item.Scn] {
 				warmed[rq.Item.Scn] = true
 				runOne(scn, nil, false)
 			}
-			before := vrt.ShimOps
+			before := atomic.LoadInt64(&vrt.ShimOps)
 			st = exploreItem(scn, rq.Item.Bound, rq.Item.Prefix, rq.Budget, time.UnixMilli(rq.Deadline))
-			st.ShimOps = vrt.ShimOps - before
+			st.ShimOps = atomic.LoadInt64(&vrt.ShimOps) - before
 		}
 		b, _ := json.Marshal(st)
 		out.Write(b)
